@@ -127,6 +127,16 @@ ONE={
 "C13-B5":("sync `admit` looks victims up with `try_get`","victim's shard write-locked by another thread during admission: real threads only"),
 "C16-A5":("sync `BaseCache::is_expired_entry` (iterator) skips the write-time check without ttl","no ttl; get and invalidate_all at one clock reading (or racing), then maintenance, then iterate"),
 "C16-B5":("sync `apply_reads` guard compares last_modified instead of last_accessed","tti; two readers whose reads are queued in the opposite order of their clock readings"),
+"C01-A6":("sync `invalidate` returns early when `contains_key` is false (as C02-A5)","tti; a queued hit revives an entry that looked idle-expired when it was invalidated"),
+"C01-B6":("unsync `invalidate_entries_if` caps the collected keys at 100 (as C07-A5)","more than 100 matching entries"),
+"C06-A6":("sync `get_with_hash` skips the tti test while >= 64 reads are queued","exactly one flush point of unapplied reads, then a get of an idle-expired key"),
+"C06-B6":("unsync `Debug` walks the raw map (as C05-B5)","tti; `{:?}` after the idle deadline"),
+"C14-A6":("sync `contains_key` queues a `ReadOp::Miss` for an expired/hidden unpurged entry","expiry or invalidate_all; contains_key on the unpurged key"),
+"C14-B6":("unsync `get` increments the sketch twice on a live hit when expiry is configured","ttl/tti configured; any hit"),
+"C15-A6":("sync `Debug` calls `sync()` before listing the entries","`{:?}` while operations are queued"),
+"C15-B6":("sync `contains_key` removes an expired entry and queues a Remove op","expired unpurged entry; full cache; a later cold insert"),
+"C17-A6":("sync oversize check `new_weight > max as u32`","max_capacity > u32::MAX, full cache, popular candidate heavier than `max as u32`"),
+"C17-B6":("unsync `build_with_hasher` validates (ttl, ttl)","custom hasher + time_to_idle over 1000 years"),
 "C17-B4":("unsync `with_everything` drops zero durations","time_to_live / time_to_idle of exactly 0"),
 }
 rows=[]
@@ -229,6 +239,15 @@ evicted). New generator mode found useful on the way: "mid" configurations
 (max_capacity 300..2000, first filled with several hundred unit-weight entries,
 weights up to the capacity), with the growing-update allowance of C04 accumulated
 over operations once more residents than one eviction batch exist.
+
+Sixth round (ids ending in `6`, for C01, C06, C14, C15, C17; several authors
+arrived at changes of earlier rounds again, which are kept as duplicates).
+Caught at once: eight of ten. Strengthened after misses: `C06-A6` (operation
+"sync(); 63..100 gets without sync; step to a key's deadline; get" in the C01,
+C05, C06 profiles), `C15-A6` (`{:?}` formatting is one of the extra pure
+observations of the C15 pairs, and its purity is monitored like that of
+`contains_key` / `iter`). `C17-A6` is reported by C13 (a popular candidate is
+rejected), not by C17: `policy()` and the differential histories of C17 agree.
 
 Not caught (or caught only elsewhere), with the reason:
 * `C13-A5` — needs five invalidations still queued behind the newcomer's insert.
